@@ -396,10 +396,11 @@ pub struct WOptions {
     pub listfile: bool,
     pub userdata_prefix: usize, // 0 = none; else bytes of user data area (multiple of 512)
     pub deleted_slots: Vec<u32>, // hash slots to pre-mark as deleted (0xFFFFFFFE)
+    pub reuse_deleted: bool,     // insertion may take a deleted slot (true) or walks past it like past an occupied one
 }
 impl Default for WOptions {
     fn default() -> Self {
-        WOptions { version: 0, shift: 3, hash_size: 16, listfile: true, userdata_prefix: 0, deleted_slots: vec![] }
+        WOptions { version: 0, shift: 3, hash_size: 16, listfile: true, userdata_prefix: 0, deleted_slots: vec![], reuse_deleted: true }
     }
 }
 
@@ -564,7 +565,7 @@ pub fn write_with(files: &[WFile], opt: &WOptions, ext: &WExt) -> Result<Vec<u8>
         let start = hash_name(&f.name, 0) as usize & (hn - 1);
         let mut i = start;
         loop {
-            if hash[i].block >= 0xFFFF_FFFE {
+            if hash[i].block == 0xFFFF_FFFF || (opt.reuse_deleted && hash[i].block == 0xFFFF_FFFE) {
                 // deleted markers may be reused only if doing so cannot shadow a later duplicate; here names are unique
                 hash[i] = HashEnt { a: hash_name(&f.name, 1), b: hash_name(&f.name, 2), locale: 0, platform: 0, block: bi as u32 };
                 break;
